@@ -48,6 +48,14 @@ def describe_exc(e):
     return 'harness: %r\n%s' % (e, traceback.format_exc()[-1500:])
 
 
+TIMING = re.compile(r'alive|Timeout|timed out|did not finish|did not return|within \d+ s|gave up|waiting', re.I)
+
+
+def timing_verdict(v):
+    """a verdict that depends on real time on real threads (it counts only if it reproduces; a data mismatch counts at once)"""
+    return bool(v) and bool(TIMING.search(v))
+
+
 def raise_for(text):
     """turn the text of `describe_exc` into the right exception"""
     if text.startswith('lib:'):
